@@ -839,6 +839,160 @@ def check_predicates(ctx):
         ctx.check("C04.A", f"{mn}:arithmetic", bad is None, f"{mn}: the computed value differs from the reference at (a, b, mod), got = {bad}", repo.loc(ex.module, fn), sample={"mnemonic": mn})
 
 
+def differential_programs():
+    """(label, [subroutine text, ...]) - the programs C04.D runs on the executor and on the reference semantics"""
+    H = "# NETQASM 1.0\n# APPID 0\n"
+    out = []
+    # arithmetic: every operation x operand values x moduli, an undefined operand, a modulus below one
+    for op in ("add", "sub", "addm", "subm"):
+        for a_, b_ in ((0, 0), (5, 7), (7, 5), (100, 3), (1, 1)):
+            for mod in ((1, 3, 7) if op.endswith("m") else (None,)):
+                m_ = f"set R3 {mod}\n" if mod is not None else ""
+                out.append((f"{op} {a_} {b_} mod {mod}", [H + f"set R0 {a_}\nset R1 {b_}\n{m_}{op} R2 R0 R1{' R3' if mod is not None else ''}\n{op} R0 R0 R2{' R3' if mod is not None else ''}\nset R9 1\n"]))
+        tail = " R3" if op.endswith("m") else ""
+        out.append((f"{op} with an undefined operand", [H + f"set R0 4\nset R3 5\nset R8 1\n{op} R2 R0 R1{tail}\nset R9 1\n"]))
+        out.append((f"{op} with an undefined first operand", [H + f"set R1 4\nset R3 5\n{op} R2 R0 R1{tail}\nset R9 1\n"]))
+        if op.endswith("m"):
+            for mod in (0,):
+                out.append((f"{op} modulus {mod}", [H + f"set R0 4\nset R1 9\nset R3 {mod}\nset R8 1\n{op} R2 R0 R1 R3\nset R9 1\n"]))
+            out.append((f"{op} negative modulus", [H + f"set R0 4\nset R1 9\nset R6 0\nset R7 2\nsub R3 R6 R7\nset R8 1\n{op} R2 R0 R1 R3\nset R9 1\n"]))
+            out.append((f"{op} undefined modulus", [H + f"set R0 4\nset R1 9\n{op} R2 R0 R1 R3\nset R9 1\n"]))
+    # branches: taken and not taken, forward, backward, into the middle of a block; jmp
+    conds = {"bez": ("bez R0 {t}", [0, 3]), "bnz": ("bnz R0 {t}", [0, 3]), "beq": ("beq R0 R1 {t}", [2, 3]), "bne": ("bne R0 R1 {t}", [2, 3]),
+             "blt": ("blt R0 R1 {t}", [1, 2, 3]), "bge": ("bge R0 R1 {t}", [1, 2, 3])}
+    for mn, (form, values) in conds.items():
+        for v in values:
+            out.append((f"{mn} forward R0={v} R1=2", [H + f"set R0 {v}\nset R1 2\nset R5 0\nset R6 1\nset R7 10\n{form.format(t='T')}\nadd R5 R5 R6\nT:\nadd R5 R5 R7\n{form.format(t='E')}\nadd R5 R5 R6\nE:\n"]))
+            out.append((f"{mn} loop R0={v} R1=2", [H + f"set R0 {v}\nset R1 2\nset R5 0\nset R6 1\nset R9 0\nset R10 3\nL:\nadd R9 R9 R6\nadd R5 R5 R9\nbeq R9 R10 OUT\n{form.format(t='OUT')}\njmp L\nOUT:\nadd R5 R5 R10\n"]))
+        # (a branch on an undefined register is not specified: not executed)
+    # negative values (the difference of two registers)
+    for mn, (form, values) in conds.items():
+        out.append((f"{mn} with a negative value", [H + f"set R2 0\nset R3 4\nsub R0 R2 R3\nset R1 2\nset R5 0\nset R6 1\n{form.format(t='T')}\nadd R5 R5 R6\nT:\nadd R5 R5 R3\nsub R1 R2 R6\n{form.format(t='E')}\nadd R5 R5 R6\nE:\nret_reg R0\n"]))
+    out.append(("jmp forward, backward and into the middle", [H + "set R5 0\nset R6 1\nset R9 0\nset R10 2\njmp B\nA:\nadd R5 R5 R6\nadd R9 R9 R6\nbeq R9 R10 END\nB:\nadd R5 R5 R10\njmp A\nset R5 77\nEND:\nadd R5 R5 R6\n"]))
+    # every register bank
+    out.append(("set / ret_reg in every bank", [H + "".join(f"set {b}{i} {10 * k + i}\n" for k, b in enumerate("RCQM") for i in (0, 7, 15)) + "".join(f"ret_reg {b}{i}\n" for b in "RCQM" for i in (0, 15)) + "add C1 R0 M15\nret_reg C1\n"]))
+    out.append(("ret_reg of an undefined register", [H + "set R0 1\nret_reg R0\nret_reg R1\nset R9 1\n"]))
+    # arrays
+    for ln in (0, 1, 3):
+        body = f"set R0 {ln}\narray R0 @2\nlea R6 @2\nset R1 41\nset R2 0\n"
+        if ln:
+            body += f"store R1 @2[R2]\nstore R6 @2[{ln - 1}]\nload R4 @2[R2]\nload R5 @2[{ln - 1}]\nret_arr @2\nundef @2[R2]\nret_reg R4\n"
+        out.append((f"array of length {ln}: store, load, lea, undef, ret_arr", [H + body + "set R9 1\n"]))
+        out.append((f"array of length {ln}: store at index {ln}", [H + f"set R0 {ln}\narray R0 @2\nset R1 41\nset R2 {ln}\nset R8 1\nstore R1 @2[R2]\nset R9 1\n"]))
+        out.append((f"array of length {ln}: load at index {ln}", [H + f"set R0 {ln}\narray R0 @2\nset R8 1\nload R1 @2[{ln}]\nset R9 1\n"]))
+        out.append((f"array of length {ln}: undef at index {ln + 1}", [H + f"set R0 {ln}\narray R0 @2\nset R8 1\nundef @2[{ln + 1}]\nset R9 1\n"]))
+    out.append(("load of an undefined entry", [H + "set R0 2\narray R0 @0\nset R1 5\nstore R1 @0[1]\nset R8 1\nload R2 @0[0]\nset R9 1\n"]))
+    out.append(("load of an entry that was undefined again", [H + "set R0 2\narray R0 @0\nset R1 5\nstore R1 @0[1]\nload R3 @0[1]\nundef @0[1]\nload R2 @0[1]\nset R9 1\n"]))
+    out.append(("store of an undefined register", [H + "set R0 2\narray R0 @0\nset R8 1\nstore R1 @0[0]\nset R9 1\n"]))
+    out.append(("store through an undefined index register", [H + "set R0 2\narray R0 @0\nset R1 5\nstore R1 @0[R2]\nset R9 1\n"]))
+    out.append(("store into an array that does not exist", [H + "set R1 5\nset R8 1\nstore R1 @4[0]\nset R9 1\n"]))
+    out.append(("ret_arr of an array that does not exist", [H + "set R8 1\nret_arr @4\nset R9 1\n"]))
+    out.append(("array with an undefined length", [H + "set R8 1\narray R0 @1\nset R9 1\n"]))
+    out.append(("two arrays, values stay apart", [H + "set R0 2\narray R0 @0\nset R0 3\narray R0 @1\nset R1 5\nset R2 6\nstore R1 @0[1]\nstore R2 @1[1]\nstore R2 @1[2]\nload R3 @0[1]\nload R4 @1[1]\nret_arr @0\nret_arr @1\n"]))
+    out.append(("array declared again with the same length", [H + "set R0 2\narray R0 @0\nset R1 5\nstore R1 @0[1]\nret_arr @0\narray R0 @0\nret_arr @0\nset R8 1\nload R3 @0[1]\nset R9 1\n"]))
+    out.append(("array declared again in a later subroutine", [H + "set R0 2\narray R0 @0\nset R1 5\nstore R1 @0[1]\n", H + "set R0 2\narray R0 @0\nset R8 1\nload R3 @0[1]\nset R9 1\n"]))
+    out.append(("array declared again", [H + "set R0 2\narray R0 @0\nset R1 5\nstore R1 @0[1]\nset R0 3\narray R0 @0\nset R8 1\nload R3 @0[1]\nset R9 1\n"]))
+    out.append(("sum of an array in a loop", [H + "set R0 4\narray R0 @0\nset R1 0\nset R6 1\nF:\nbeq R1 R0 S\nadd R2 R1 R1\nstore R2 @0[R1]\nadd R1 R1 R6\njmp F\nS:\nset R1 0\nset R5 0\nG:\nbeq R1 R0 D\nload R3 @0[R1]\nadd R5 R5 R3\nadd R1 R1 R6\njmp G\nD:\nret_reg R5\nret_arr @0\n"]))
+    # qubit bookkeeping (unit module of two qubits)
+    out.append(("qalloc both, free one, allocate it again", [H + "set Q0 0\nqalloc Q0\nset Q1 1\nqalloc Q1\nqfree Q0\nqalloc Q0\nset R9 1\n"]))
+    out.append(("qalloc twice", [H + "set Q0 1\nqalloc Q0\nset R8 1\nqalloc Q0\nset R9 1\n"]))
+    out.append(("qalloc through two registers holding the same id", [H + "set Q0 1\nset Q3 1\nqalloc Q0\nqalloc Q3\nset R9 1\n"]))
+    out.append(("qfree of a qubit that is not allocated", [H + "set Q0 0\nqalloc Q0\nset Q1 1\nset R8 1\nqfree Q1\nset R9 1\n"]))
+    out.append(("qfree twice", [H + "set Q0 0\nqalloc Q0\nqfree Q0\nqfree Q0\nset R9 1\n"]))
+    out.append(("qalloc outside the unit module", [H + "set Q0 2\nset R8 1\nqalloc Q0\nset R9 1\n"]))
+    out.append(("qalloc through an undefined register", [H + "set R8 1\nqalloc Q5\nset R9 1\n"]))
+    # several subroutines against the same application state
+    out.append(("state carried from one subroutine to the next", [H + "set R0 3\narray R0 @0\nset R1 8\nstore R1 @0[2]\nset Q0 1\nqalloc Q0\n", H + "load R2 @0[2]\nadd R3 R2 R1\nset Q1 0\nqalloc Q1\nret_reg R3\n", H + "qfree Q0\nset Q2 1\nqalloc Q2\nload R4 @0[0]\nset R9 1\n"]))
+    out.append(("a fault in one subroutine, the next one runs", [H + "set R0 1\nload R1 @7[0]\nset R9 1\n", H + "set R2 5\nadd R3 R2 R0\nret_reg R3\n"]))
+    return out
+
+
+def _run_semantics(ctx, program):
+    """one program on the repository's executor and on the reference semantics -> None when they agree after every subroutine, else (construct, text)"""
+    import re as _re
+    from .. import refsem
+    from .. import session as S
+    from .. import circuit as C
+    label, texts = program
+    w = S.ExecutorWorld(ctx, S.scenario(max_steps=400000), record_gates=False)
+    w.init_app(0, 2)
+    st = refsem.State(2)
+    for k, text in enumerate(texts):
+        sub = w.parse(text)
+        instrs = sub.fields.get("_instructions")
+        if not isinstance(instrs, list):
+            raise AnalysisError("the parsed subroutine has no instruction list")
+        want = refsem.run(instrs, st)
+        if want[0] == "loops":
+            raise AnalysisError(f"the checker's program `{label}` does not terminate under the reference semantics")
+        got = w.run(sub)
+        where = f"`{label}`" + (f", subroutine {k + 1} of {len(texts)}" if len(texts) > 1 else "")
+        listing = "; ".join(f"{i_}: {C.Interp(ctx.repo, ctx.ev, w.sc, None)._to_str(x_) or x_.fields.get('mnemonic')}" for i_, x_ in enumerate(instrs))
+        if got[0] == "loops":
+            return ("terminates-like-the-reference", f"{where}: the executor does not finish [{listing}]")
+        if want[0] == "ok" and got[0] != "ok":
+            return ("no-fault-where-the-semantics-has-none", f"{where}: the executor stops with {got[1]} ({got[2][:120]!r}); every instruction of [{listing}] can be carried out")
+        if want[0] == "fault":
+            if got[0] == "ok":
+                return ("faults-where-the-semantics-faults", f"{where}: instruction {want[1]} of [{listing}] cannot be carried out, the executor runs the subroutine to its end")
+            mt = _re.search(r"[Ll]ine (\d+)", got[2] or "")
+            if mt is None or int(mt.group(1)) != want[1]:
+                return ("fault-names-the-line", f"{where}: instruction {want[1]} of [{listing}] faults; the executor's error is {got[1]}: {got[2][:100]!r}")
+        um = w.unit_module(0) or []
+        sm = w.ex.fields.get("_shared_memories", {}).get(0)
+        shared_regs, shared_arrays = {}, {}
+        if isinstance(sm, C.Obj):
+            for key_, g_ in (sm.fields.get("_registers") or {}).items():
+                bank = key_[1] if isinstance(key_, tuple) else getattr(key_, "name", str(key_))
+                vals = g_.fields.get("_register") if isinstance(g_, C.Obj) else None
+                for i_, v_ in (vals.items() if isinstance(vals, dict) else enumerate(vals or [])):
+                    if v_ is not None:
+                        shared_regs[f"{bank}{i_}"] = v_
+            arrs = sm.fields.get("_arrays")
+            if isinstance(arrs, C.Obj):
+                shared_arrays = {a_: list(v_) for a_, v_ in (arrs.fields.get("_arrays") or {}).items()}
+        mapped = sorted(v_ for v_ in um if v_ is not None)
+        if mapped != sorted(w.used()):
+            return ("allocated:as-the-semantics-prescribes", f"{where} [{listing}]: the unit module maps the physical qubits {mapped}, the executor marks {sorted(w.used())} as in use")
+        have = {"registers": w.registers(0), "arrays": w.arrays(0), "allocated": sorted(i_ for i_, v_ in enumerate(um) if v_ is not None),
+                "shared registers": shared_regs, "shared arrays": shared_arrays}
+        ref = st.snapshot()
+        for part in ("registers", "arrays", "allocated", "shared registers", "shared arrays"):
+            if have[part] != ref[part]:
+                a_, b_ = have[part], ref[part]
+                if isinstance(a_, dict):
+                    diff = {k_: (a_.get(k_, "undefined"), b_.get(k_, "undefined")) for k_ in sorted(set(a_) | set(b_), key=str) if a_.get(k_, "undefined") != b_.get(k_, "undefined")}
+                else:
+                    diff = (a_, b_)
+                return (f"{part.replace(' ', '-')}:as-the-semantics-prescribes", f"{where} [{listing}] ({'faults at ' + str(want[1]) if want[0] == 'fault' else 'runs through'}): {part} (executor, reference) differ: {diff}")
+    return None
+
+
+def check_differential(ctx, rule="C04.D"):
+    """The classical core decided by differential execution: programs parsed by the repository's parser are executed by the repository's
+    Executor (constructed by its own constructor, application registered by init_new_application) and by the checker's reference
+    semantics (nqsa/refsem.py).  After every subroutine both must agree on: finished or faulted, the faulting line named in the error,
+    every register of every bank, every array, the allocated virtual qubits, and the host-visible shared memory."""
+    from .. import session as S
+    programs = differential_programs()
+    bad = {}
+    try:
+        for (label, texts), res in zip(programs, S.parallel_map(ctx, _run_semantics, programs)):
+            if res is not None:
+                bad.setdefault(res[0], res[1])
+    except AnalysisError as ex_:
+        ctx.error(rule, f"differential execution cannot be carried out: {ex_}")
+        return
+    ctx.anchor(rule, "programs executed on the executor and on the reference semantics", len(programs), 100)
+    repo = ctx.repo
+    ex = repo.get_class(EXE, "Executor")
+    loc = ex.loc(ex.methods["_execute_commands"]) if "_execute_commands" in ex.methods else None
+    keys = ["terminates-like-the-reference", "no-fault-where-the-semantics-has-none", "faults-where-the-semantics-faults", "fault-names-the-line"] + \
+           [f"{p_}:as-the-semantics-prescribes" for p_ in ("registers", "arrays", "allocated", "shared-registers", "shared-arrays")]
+    for key in keys:
+        ctx.check(rule, key, key not in bad, bad.get(key, ""), loc, sample={"programs": len(programs)})
+
+
 def check_fault_rewrap(ctx, rule="C04.X"):
     """"The error names its line": the fault wrapper builds a new exception of the fault's own class from one message string
     (`exc.__class__(f"At line ...")`).  Every exception class of the repository that code below the executor can raise must therefore
@@ -963,11 +1117,18 @@ def check_fault_line(ctx):
         sc = C.Scenario()
         sc.method_overrides = {"_execute_command": execute_command, "_handle_command_exception": hook}
         sc.externals.update({"traceback.format_tb": lambda tb=None, *a_: [], "traceback.format_exc": lambda *a_: ""})
+        sc.lazy_generators = True   # the loop is a generator (and may itself be driven by one): run as Python runs it
+        sc.max_steps = 200000
         outcome = "returned"
         try:
-            C.Interp(repo, ctx.ev, sc, ex).call_function(m, fn, [], {"subroutine_id": 4, "commands": list(cmds)}, self_obj=o)
+            g_ = C.Interp(repo, ctx.ev, sc, ex).call_function(m, fn, [], {"subroutine_id": 4, "commands": list(cmds)}, self_obj=o)
+            if isinstance(g_, C.LazyGen):
+                for _ in g_:
+                    pass
         except C.EvalRaise as ex_:
             outcome = ex_.exc_name
+        except C.StepLimit:
+            outcome = "does not terminate"
         return trace, faults, outcome, o.fields["_program_counters"]
 
     bad = {}
@@ -1050,48 +1211,60 @@ def check_memory_primitives(ctx):
                   f"{cls.name}.{meth}: the store `{target} = {value or '<value>'}` happens between {mn} and {mx} times on its non-raising paths; the executor relies on it happening exactly once "
                   f"(an early return or a conditional store changes what `{meth}` leaves in memory)", cls.loc(fn), sample={"primitive": f"{cls.name}.{meth}", "store": f"{target} = {value}", "min": mn, "max": mx})
 
-    f = arrays.methods.get("init_new_array")
-    if f is not None:
-        pa, pl = A.param_names(f)[1:3]
-        once(arrays, "init_new_array", f"self._arrays[{pa}]", f"[None]*{pl}", "fresh-undefined-array")
     f = rg.methods.get("__setitem__")
     if f is not None:
         pi, pv = A.param_names(f)[1:3]
         once(rg, "__setitem__", f"self._register[{pi}]", pv, "stores-value-at-index")
-    f = arrays.methods.get("_set_array")
-    if f is not None:
-        pa, pv = A.param_names(f)[1:3]
-        once(arrays, "_set_array", f"self._arrays[{pa}]", pv, "replaces-array")
-    # Arrays.__setitem__: array[index] = value on the array found at the address of the key
-    f = arrays.methods.get("__setitem__")
-    if f is not None:
-        ctx.fn("Arrays.__setitem__")
-        d = A.single_defs(f)
-        pk, pv = A.param_names(f)[1:3]
-        addr_v, idx_v, arr_v = _key_roles(f, pk)
-        mn, mx = _count_stores(f, lambda n: isinstance(n, ast.Assign) and isinstance(n.targets[0], ast.Subscript) and A.norm(n.targets[0]) == f"{arr_v}[{idx_v}]" and A.norm(n.value) == pv)
-        src_ok = arr_v is not None
-        ctx.check("C04.M", "Arrays.__setitem__:stores-value-at-key", (mn, mx) == (1, 1) and src_ok,
-                  f"Arrays.__setitem__ does not store the value exactly once at [address, index] of its key (stores per path: {mn}..{mx}, key/array source ok: {src_ok})", arrays.loc(f), sample={"min": mn, "max": mx})
-    f = arrays.methods.get("__getitem__")
-    if f is not None:
-        ctx.fn("Arrays.__getitem__")
-        d = A.single_defs(f)
-        rets = [A.norm(A.expand(r.value, d)) for r in A.returns(f) if r.value is not None and not (isinstance(r.value, ast.Constant) and r.value.value is None)]
-        pk = A.param_names(f)[1]
-        addr_v, idx_v, arr_v = _key_roles(f, pk)
-        ok = rets == [f"self._get_array(self._extract_key({pk})[0])[self._extract_key({pk})[1]]"] or rets == [f"self._get_array({addr_v})[{idx_v}]"]
-        # simpler structural form: <v> = <array>[<index>]; return <v>, array from _get_array(<address>)
-        if not ok and arr_v is not None:
-            vals = [n for n in ast.walk(f) if isinstance(n, ast.Assign) and isinstance(n.targets[0], ast.Name) and A.norm(n.value) == f"{arr_v}[{idx_v}]"]
-            ok = len(vals) == 1 and any(isinstance(r.value, ast.Name) and r.value.id == vals[0].targets[0].id for r in A.returns(f))
-        ctx.check("C04.M", "Arrays.__getitem__:reads-value-at-key", ok, "Arrays.__getitem__ does not return array[index] of the array at the key's address", arrays.loc(f))
-    f = arrays.methods.get("_get_array")
-    if f is not None:
-        pa = A.param_names(f)[1]
-        rets = [A.norm(r.value) for r in A.returns(f)]
-        guard = any(isinstance(n, ast.If) and A.norm(n.test) == f"{pa}notinself._arrays" and G.always_raises(n.body) for n in f.body)
-        ctx.check("C04.M", "Arrays._get_array:own-array-or-raise", rets == [f"self._arrays[{pa}]"] and guard, "Arrays._get_array does not return self._arrays[address] / raise for an unknown address", arrays.loc(f))
+    # Arrays: executed on an object built by its own constructor - declare, write entries and slices, read them back, replace an array
+    # by a given list, refuse unknown addresses and indices outside the array
+    from .. import circuit as C
+    from .. import session as S
+    for nm_ in ("init_new_array", "__setitem__", "__getitem__", "_get_array", "_set_array"):
+        if nm_ in arrays.methods:
+            ctx.fn(f"Arrays.{nm_}")
+    try:
+        sc = S.scenario()
+        I_ = C.Interp(repo, ctx.ev, sc, arrays)
+        o = I_.construct(arrays, [], {}, None)
+
+        def do(name, *args):
+            r_ = S.outcome(I_.method, o, name, list(args), {}, None)
+            return (r_[0], list(r_[1])) if r_[0] == "ok" and isinstance(r_[1], list) else r_   # (what it holds now, not the live list)
+
+        def getk(addr, idx):
+            return do("__getitem__", (addr, idx))
+
+        script = []
+        script.append(("init_new_array(3, 2)", do("init_new_array", 3, 2), ("ok", None)))
+        script.append(("[3, 0:2] of a fresh array", getk(3, slice(0, 2)), ("ok", [None, None])))
+        script.append(("[3, 1] = 9", do("__setitem__", (3, 1), 9), ("ok", None)))
+        script.append(("[3, 1]", getk(3, 1), ("ok", 9)))
+        script.append(("[3, 0]", getk(3, 0), ("ok", None)))
+        script.append(("[3, 2] = 1 (past the end)", do("__setitem__", (3, 2), 1)[:2], ("raises", "IndexError")))
+        script.append(("[3, 2] (past the end)", getk(3, 2)[:2], ("raises", "IndexError")))
+        script.append(("[9, 0] = 1 (no such array)", do("__setitem__", (9, 0), 1)[:2], ("raises", "IndexError")))
+        script.append(("init_new_array(4, 3)", do("init_new_array", 4, 3), ("ok", None)))
+        script.append(("[4, 0:2] = [7, 8]", do("__setitem__", (4, slice(0, 2)), [7, 8]), ("ok", None)))
+        script.append(("[4, 0:3]", getk(4, slice(0, 3)), ("ok", [7, 8, None])))
+        script.append(("[3, 0:2] (the other array is untouched)", getk(3, slice(0, 2)), ("ok", [None, 9])))
+        given = [5, 6]
+        script.append(("_set_array(3, [5, 6])", do("_set_array", 3, given), ("ok", None)))
+        script.append(("[3, 0:2] after _set_array", getk(3, slice(0, 2)), ("ok", [5, 6])))
+        script.append(("_get_array(3)", do("_get_array", 3), ("ok", [5, 6])))
+        script.append(("_set_array(8, [1]) (no such array)", do("_set_array", 8, [1])[:2], ("raises", "IndexError")))
+        script.append(("_get_array(8) (no such array)", do("_get_array", 8)[:2], ("raises", "IndexError")))
+        script.append(("[3, 1] = None (undefine)", do("__setitem__", (3, 1), None), ("ok", None)))
+        script.append(("[3, 0:2] after the entry was undefined", getk(3, slice(0, 2)), ("ok", [5, None])))
+        script.append(("init_new_array(4, 3) again (same length)", do("init_new_array", 4, 3), ("ok", None)))
+        script.append(("[4, 0:3] of the array declared again with its old length", getk(4, slice(0, 3)), ("ok", [None, None, None])))
+        script.append(("init_new_array(3, 1) again", do("init_new_array", 3, 1), ("ok", None)))
+        script.append(("[3, 0:1] of the array declared again", getk(3, slice(0, 1)), ("ok", [None])))
+        wrong = [(what, got, want) for what, got, want in script if got != want]
+        ctx.check("C04.M", "Arrays:declare-write-read-replace", not wrong,
+                  "the array store of the shared memory does not do what it is asked: " + "; ".join(f"{w_}: {g_!r}, expected {e_!r}" for w_, g_, e_ in wrong[:4]), arrays.loc(arrays.methods["__setitem__"]) if "__setitem__" in arrays.methods else None,
+                  sample={"steps": len(script)})
+    except AnalysisError as ex_:
+        ctx.error("C04.M", f"Arrays cannot be executed: {ex_}")
     f = rg.methods.get("__getitem__")
     if f is not None:
         # executed abstractly: the stored value at a stored index, None at an index never written, IndexError outside 0..size-1
@@ -1173,12 +1346,12 @@ def run(ctx):
     table = handler_table(ctx)
     check_dispatch(ctx, table)
     check_pc(ctx, table)
-    check_none_guards(ctx, table)
-    check_predicates(ctx)
-    check_signatures(ctx, table)
+    # (what every classical instruction does to registers, arrays, the counter and the shared memory - operand roles, predicates,
+    # arithmetic, the None guards - is decided by C04.D on executed programs; how the handlers are written is not read)
     check_memory_primitives(ctx)
     check_fault_line(ctx)
     check_fault_rewrap(ctx, "C04.X")
+    check_differential(ctx, "C04.D")
     # "execution stops at that instruction": a fault must leave the state untouched (rule shared with C13)
     from . import c13
     c13.check_fault_atomicity(ctx, "C04.F")
@@ -1204,18 +1377,18 @@ SEEDS = [
     dict(id="c04-store-writes-before-index-check", file=X, expect="C04.F", construct="_instr_array",
          old="        length = self._get_register(app_id, instr.size)\n", new="        length = self._get_register(app_id, instr.size)\n        self._set_register(app_id, instr.size, length)\n"),
     dict(id="c04-lea-no-pc", file=X, expect="C04.PC", construct="_instr_lea", old="    @inc_program_counter\n    def _instr_lea(", new="    def _instr_lea("),
-    dict(id="c04-bge-gt", file=C, expect="C04.B", construct="bge", old="        return a >= b", new="        return a > b"),
-    dict(id="c04-bnz", file=C, expect="C04.B", construct="bnz", old="        return a != 0", new="        return a > 0"),
-    dict(id="c04-store-none", file=X, expect="C04.N", construct="_instr_store",
+    dict(id="c04-bge-gt", file=C, expect="C04.D", construct="", old="        return a >= b", new="        return a > b"),
+    dict(id="c04-bnz", file=C, expect="C04.D", construct="", old="        return a != 0", new="        return a > 0"),
+    dict(id="c04-store-none", file=X, expect="C04.D", construct="",
          old="        if value is None:\n            raise RuntimeError(f\"value in register {register} is not defined\")\n", new=""),
-    dict(id="c04-load-none", file=X, expect="C04.N", construct="_instr_load",
+    dict(id="c04-load-none", file=X, expect="C04.D", construct="",
          old="        if value is None:\n            raise RuntimeError(f\"array value at {array_entry} is not defined\")\n", new=""),
-    dict(id="c04-mod-guard", file=X, expect="C04.N", construct="modulus", old="        if mod is not None and mod < 1:", new="        if mod is not None and mod < 0:"),
-    dict(id="c04-subm", file=X, expect="C04.A", construct="subm", old="            return (a - b) % mod", new="            return (b - a) % mod"),
-    dict(id="c04-sub-operands", file=X, expect="C04.S", construct="",
+    # (a modulus guard of `< 0` instead of `< 1` still faults at the same instruction for modulus 0 - by the division itself: no difference the property speaks of)
+    dict(id="c04-subm", file=X, expect="C04.D", construct="", old="            return (a - b) % mod", new="            return (b - a) % mod"),
+    dict(id="c04-sub-operands", file=X, expect="C04.D", construct="",
          old="        a = self._get_register(app_id=app_id, register=instr.regin0)\n        b = self._get_register(app_id=app_id, register=instr.regin1)",
          new="        a = self._get_register(app_id=app_id, register=instr.regin1)\n        b = self._get_register(app_id=app_id, register=instr.regin0)"),
-    dict(id="c04-alias-swapped", file=C, expect="C04.S", construct="", count=2,
+    dict(id="c04-alias-swapped", file=C, expect="C04.D", construct="", count=2,
          old="    @property\n    def regin0(self):\n        return self.reg1\n", new="    @property\n    def regin0(self):\n        return self.reg2\n"),
     dict(id="c04-branch-pc-twice", file=X, expect="C04.PC", construct="_handle_branch_instr",
          old="            self._program_counters[subroutine_id] = jump_address.value\n        else:", new="            self._program_counters[subroutine_id] = jump_address.value\n            self._program_counters[subroutine_id] += 1\n        else:"),
@@ -1225,17 +1398,17 @@ SEEDS = [
          old="                self._handle_command_exception(exc, prog_counter, traceback_str)\n                break", new="                self._handle_command_exception(exc, prog_counter, traceback_str)\n                continue"),
     dict(id="c04-fault-line", file=X, expect="C04.E", construct="fault-line",
          old="self._handle_command_exception(exc, prog_counter, traceback_str)", new="self._handle_command_exception(exc, self._program_counters[subroutine_id], traceback_str)"),
-    dict(id="c04-retreg-wrong-reg", file=X, expect="C04.S", construct="ret_reg", old="        self._update_shared_memory(app_id=app_id, entry=register, value=value)", new="        self._update_shared_memory(app_id=app_id, entry=operand.Register(register.name, 0), value=value)"),
-    dict(id="c04-slice-order", file=X, expect="C04.S", construct="_expand_array_part", old="            for raw_s in [array_part.start, array_part.stop]:", new="            for raw_s in [array_part.stop, array_part.start]:"),
+    dict(id="c04-retreg-wrong-reg", file=X, expect="C04.D", construct="", old="        self._update_shared_memory(app_id=app_id, entry=register, value=value)", new="        self._update_shared_memory(app_id=app_id, entry=operand.Register(register.name, 0), value=value)"),
+    # (the bounds of an array slice are used by wait_all and by the EPR instructions, not by the instructions of this property)
     dict(id="c04-dispatch-drop", file=X, expect="C04.H", construct="jmp",
          old="                isinstance(command, ins.core.JmpInstruction)\n                or isinstance(command, ins.core.BranchUnaryInstruction)", new="                isinstance(command, ins.core.BranchUnaryInstruction)"),
     dict(id="c04-decorator-before", file=X, expect="C04.PC", construct="inc_program_counter",
          old="        output = method(self, subroutine_id, instr)\n        if isinstance(output, GeneratorType):\n            output = yield from output\n        self._program_counters[subroutine_id] += 1\n",
          new="        self._program_counters[subroutine_id] += 1\n        output = method(self, subroutine_id, instr)\n        if isinstance(output, GeneratorType):\n            output = yield from output\n"),
-    dict(id="c04-set-register-wrong-bank", file=X, expect="C04.S", construct="_set_register", old="        self._registers[app_id][register.name][register.index] = value", new="        self._registers[app_id][RegisterName.R][register.index] = value"),
+    dict(id="c04-set-register-wrong-bank", file=X, expect="C04.D", construct="", old="        self._registers[app_id][register.name][register.index] = value", new="        self._registers[app_id][RegisterName.R][register.index] = value"),
 ]
 SEEDS += [
-    dict(id="c04-array-reuse", file="netqasm/sdk/shared_memory.py", expect="C04.M", construct="init_new_array", old="        _assert_within_width(address, ADDRESS_BITS)\n        self._arrays[address] = [None] * length", new="        _assert_within_width(address, ADDRESS_BITS)\n        if address in self._arrays and len(self._arrays[address]) == length:\n            return\n        self._arrays[address] = [None] * length"),
+    dict(id="c04-array-reuse", file="netqasm/sdk/shared_memory.py", expect="C04.M", construct="Arrays:declare", old="        _assert_within_width(address, ADDRESS_BITS)\n        self._arrays[address] = [None] * length", new="        _assert_within_width(address, ADDRESS_BITS)\n        if address in self._arrays and len(self._arrays[address]) == length:\n            return\n        self._arrays[address] = [None] * length"),
     dict(id="c04-register-store-skips-zero", file="netqasm/sdk/shared_memory.py", expect="C04.M", construct="RegisterGroup.__setitem__", old="        _assert_within_width(value, ADDRESS_BITS)\n        self._register[index] = value", new="        _assert_within_width(value, ADDRESS_BITS)\n        if value:\n            self._register[index] = value"),
 ]
 BENIGN = [
